@@ -209,10 +209,10 @@ class Explorer:
         return self.obligations
 
 
-BUILTIN_TYPES = {"int", "float", "bool", "str", "list", "dict", "tuple", "set", "type", "object", "slice",
+BUILTIN_TYPES = {"int", "float", "bool", "str", "list", "dict", "tuple", "set", "object", "slice",
                  "Exception", "AssertionError", "NotImplementedError", "TypeError", "KeyError", "IndexError",
                  "ValueError", "ZeroDivisionError", "AttributeError"}
-BUILTIN_FUNCS = {"len", "range", "enumerate", "zip", "min", "max", "sum", "abs", "isinstance", "print", "eval",
+BUILTIN_FUNCS = {"type", "len", "range", "enumerate", "zip", "min", "max", "sum", "abs", "isinstance", "print", "eval",
                  "all", "any", "sorted", "super", "hash", "id", "repr", "round", "getattr", "hasattr", "iter",
                  "next", "reversed", "map", "filter", "open", "issubclass", "callable", "divmod"}
 
